@@ -7,6 +7,7 @@ from functools import partial
 
 from common import f2h, Outcome, close, h2f, np, rng_for, run_driver
 
+RULE_ADDENDA = ('user-supplied total_num_permutations; the whole p-value computation through the driver; keyword plumbing vs the model; 2-3 column samples; spawn / forkserver start methods')
 LEVEL = "proof"
 EXPLANATION = ("Theorems (Lean): the null statistics are the detector's statistic with the detector's parameters on the re-splits (wiring, job partition irrelevant); "
                "the four p-value formulas with their ranges, the binomial CDF, the exact integral of the approximate method and the double-factor witness. This run "
